@@ -5,6 +5,7 @@ mod cprcheck;
 mod decoder;
 mod framecheck;
 mod framegen;
+mod readercheck;
 mod refcpr;
 mod refdec;
 mod total;
@@ -41,6 +42,7 @@ fn main() {
             "C02" => accept::replay_c02(&v),
             "C03" => accept::replay_c03(&v),
             "C05" => cprcheck::replay_c05(&v),
+            "C19" => readercheck::replay_c19(&v),
             "C04" | "C06" | "C07" | "C08" | "C09" | "C10" => decoder::replay(pid, &v),
             _ => usage(),
         };
@@ -51,7 +53,7 @@ fn main() {
         "thorough" => Tier::Thorough,
         _ => usage(),
     };
-    let ctx = Ctx::new(pid, tier);
+    let mut ctx = Ctx::new(pid, tier);
     match pid {
         "C01" => total::run_c01(&ctx),
         "C02" => accept::run_c02(&ctx),
@@ -63,6 +65,7 @@ fn main() {
         "C08" => decoder::run_c08(&ctx),
         "C09" => decoder::run_c09(&ctx),
         "C10" => decoder::run_c10(&ctx),
+        "C19" => readercheck::run_c19(&mut ctx),
         _ => usage(),
     }
 }
